@@ -499,7 +499,107 @@ func genC12(g *G) {
 	}
 }
 
+// ---------------------------------------------------------------------------------------------------------------
+// family `pole` (defect D58): targets within ~2^-53/(edge length) of a POLE of the great circle of one cell edge.
+//
+// In the face frame (u,v,w) of the cell the edge k lies in the plane with inward normal n_k
+//   (1,0,-u0) left, (-1,0,u1) right, (0,1,-v0) bottom, (0,-1,v1) top;
+// the target is  t = -n_k/|n_k|  -/+  beta * mid_k  (+ noise),  normalized, where mid_k is the unit vector of the edge
+// midpoint: t is at 90 degrees from the whole edge up to beta, its projection Q onto the edge plane has length beta and
+// points AWAY from the edge (sign -; towards it for sign +).  The tangential tests of uEdgeIsClosest / vEdgeIsClosest see
+// exact values of the order beta * (edge length), so for beta * length below ~2^-53 they decide on rounding noise.
+// Before repair D58 a noisy "yes" made Distance return |t|^2 + 1 - 2|Q| where the truth is |t|^2 + 1 + 2|Q|
+// (under-estimate 4*beta, above the judge's tolerance 2e-12 for level >= 13).
+// Every sample of the family is emitted (no filtering on the outcome), levels 13..30, all four edges, all six faces.
+
+// c12FaceFrame: the images of the face-frame axes u, v, w in xyz (exact: entries 0, +-1).
+func c12FaceFrame(f int) (r3.Vector, r3.Vector, r3.Vector) {
+	n := s2.VerifFaceUVToXYZ(f, 0, 0)
+	return s2.VerifFaceUVToXYZ(f, 1, 0).Sub(n), s2.VerifFaceUVToXYZ(f, 0, 1).Sub(n), n
+}
+
+// c12PoleTarget: one target of the family for edge k (0 left, 1 right, 2 bottom, 3 top) of cell c.
+// beta is drawn log-uniformly from [2^-40, 2^-57/(edge uv-length)] (under-estimate 4*beta >= 3.6e-12, above the judge's
+// tolerance; exact tangential quantities <= 2^-58, far below the rounding noise of the dot products), from
+// [2^-40, 2^-38] where that interval is empty (levels < 18); sign - (projection away from the edge) three times out of four.
+// mode 0: the plain recipe; mode 1: + noise of 2^-52 per coordinate before normalizing; mode 2: the coordinates of the
+// normalized target are moved by up to 2 ulps, at most 16 times, until the generator's OWN evaluation of the two
+// tangential dot products (same expressions as the library, computed here) has the signs "> 0, < 0" - the last try
+// is emitted whether or not that succeeded.  Nothing depends on what the library under test answers.
+func (g *G) c12PoleTarget(c s2.Cell, k, mode int) s2.Point {
+	r := g.rng
+	b := c.BoundUV()
+	var nin, mid, dir0, dir1 r3.Vector
+	var length float64
+	switch k {
+	case 0, 1:
+		u := b.X.Lo
+		nin = r3.Vector{X: 1, Z: -u}
+		if k == 1 {
+			u = b.X.Hi
+			nin = r3.Vector{X: -1, Z: u}
+		}
+		mid, length = r3.Vector{X: u, Y: 0.5 * (b.Y.Lo + b.Y.Hi), Z: 1}, b.Y.Hi-b.Y.Lo
+		dir0 = r3.Vector{X: -u * b.Y.Lo, Y: u*u + 1, Z: -b.Y.Lo}
+		dir1 = r3.Vector{X: -u * b.Y.Hi, Y: u*u + 1, Z: -b.Y.Hi}
+	default:
+		v := b.Y.Lo
+		nin = r3.Vector{Y: 1, Z: -v}
+		if k == 3 {
+			v = b.Y.Hi
+			nin = r3.Vector{Y: -1, Z: v}
+		}
+		mid, length = r3.Vector{X: 0.5 * (b.X.Lo + b.X.Hi), Y: v, Z: 1}, b.X.Hi-b.X.Lo
+		dir0 = r3.Vector{X: v*v + 1, Y: -b.X.Lo * v, Z: -b.X.Lo}
+		dir1 = r3.Vector{X: v*v + 1, Y: -b.X.Hi * v, Z: -b.X.Hi}
+	}
+	lo, hi := -40.0, math.Log2(math.Ldexp(1, -57)/length)
+	if hi < lo+2 {
+		hi = lo + 2
+	}
+	beta := -math.Exp2(lo + r.Float()*(hi-lo))
+	if r.Intn(4) == 0 {
+		beta = -beta
+	}
+	t := nin.Normalize().Mul(-1).Add(mid.Normalize().Mul(beta))
+	if mode == 1 {
+		t = t.Add(r3.Vector{X: r.Float()*2 - 1, Y: r.Float()*2 - 1, Z: r.Float()*2 - 1}.Mul(math.Ldexp(1, -52)))
+	}
+	t = t.Normalize()
+	if mode == 2 {
+		t0 := t
+		for j := 0; j < 16 && !(t.Dot(dir0) > 0 && t.Dot(dir1) < 0); j++ {
+			t = r3.Vector{X: nudgeF(r, t0.X, 2), Y: nudgeF(r, t0.Y, 2), Z: nudgeF(r, t0.Z, 2)}
+		}
+	}
+	ua, va, wa := c12FaceFrame(c.Face()) // exact: one non-zero term per coordinate
+	p := s2.Point{Vector: ua.Mul(t.X).Add(va.Mul(t.Y)).Add(wa.Mul(t.Z))}
+	if math.IsNaN(p.X+p.Y+p.Z) || math.IsInf(p.X+p.Y+p.Z, 0) || p.Norm2() < 0.5 {
+		p = s2.Point{Vector: r3.Vector{X: 1}}
+	}
+	return p
+}
+
+// genC12Pole: g.n samples of the family, every one emitted; levels 13..30 (half of the samples 24..30, where the
+// under-estimate is largest), cells of that level: 3/4 uniform, 1/4 from the structured cell generator; edges and modes in turn.
+func genC12Pole(g *G) {
+	r := g.rng
+	for i := 0; i < g.n; i++ {
+		level := 13 + r.Intn(18)
+		if i&4 != 0 {
+			level = 24 + r.Intn(7)
+		}
+		id := g.randCellAt(level) // structured: face edges, corners, grid lines
+		if r.Intn(4) != 0 {       // generic position (all roundings of the dot products are "random")
+			id = s2.VerifCellIDFromFaceIJ(r.Intn(6), r.Intn(s2.MaxSize), r.Intn(s2.MaxSize)).Parent(level)
+		}
+		c := s2.CellFromCellID(id)
+		g.emitPt("cellpt", id, g.c12PoleTarget(c, i&3, []int{0, 2, 0, 2, 1, 2, 0, 2}[(i>>3)&7]))
+	}
+}
+
 func init() {
+	generators["c12pole"] = genC12Pole
 	replayers["cellinfo"] = func(a []string) []string {
 		c := s2.CellFromCellID(s2.CellID(pU64(a[0])))
 		return []string{cellTok(c)}
